@@ -16,12 +16,17 @@ def run(chk, replay=None):
     cases = (streams.corpus_lines() + streams.fixture_lines() + streams.grammar_lines(rng, 1500 if th else 250, 0.2) + streams.anyjson_lines(rng, 1500 if th else 300)
              + streams.wrapper_lines(rng, 2000 if th else 250) + streams.search_lines(rng, None if th else 300))
     cfgs = streams.value_cfgs(rng, 10 if th else 4) + [Cfg(encrypt=True, key=streams.KEY, nums=True), Cfg(re='^(ssn|name)$', bools=True)]
+    pair = streams.pairwise_cfgs()          # every pair of flag settings together at least once, on a part of the lines
+    cfgs = cfgs + pair
     streams.note_distribution(chk, cases)
     chk.rule = ("grammar command lines, arbitrary JSON trees over the dumped operator vocabulary mixed with user names, and every value kind under every "
                 "operator / extended-JSON wrapper; x flag sets without --redactFieldNames (incl. encryption and selective mode); non-trivial = distinct "
                 "(flags, input shape) pairs whose line passes the gate and has no duplicate sibling keys")
     lines = [l for l, _ in cases]
+    all_cases, all_lines = cases, lines
     for ci, cfg in enumerate(cfgs):
+        cases = all_cases if (cfg not in pair or th) else all_cases[:450]
+        lines = [l for l, _ in cases]
         res = run_lines(cfg, lines)
         for (l, info), (io, mo) in zip(cases, res):
             chk.count(); chk.traces += 1
